@@ -260,6 +260,8 @@ class StreamMixin:
         # regular files: seeking to any non-negative offset succeeds; memory streams fail beyond the end.
         st.assume(z3.Implies(z3.And(tgt >= 0, tgt <= f.size), ok))
         st.assume(z3.Implies(tgt < 0, z3.Not(ok)))
+        if getattr(self, "fseek_regular_file", False):
+            st.assume(z3.Implies(tgt >= 0, ok))          # regular files: any non-negative offset can be sought
         f.pos = simp(z3.If(ok, tgt, f.pos))
         self._logw(st, f.id, ("pos",))
         return z3.If(ok, z3.IntVal(0), z3.IntVal(-1))
@@ -274,6 +276,9 @@ class StreamMixin:
         self._logw(st, f.id, ("closed",))
         return z3.IntVal(0)
 
+    def bi_stat(self, st, args, n):
+        return self.fresh("stat_ret", z3.IntSort())
+
     def bi_fopen(self, st, args, n):
         return self.new_file(st, "fopen%d" % next(self.fresh_n), maybe_null=True)
 
@@ -282,7 +287,13 @@ class StreamMixin:
     def bi_fwrite(self, st, args, n):
         src, size, nmemb, fp = args
         f = self._file(st, fp, n, "fwrite")
-        st.trace = st.trace + [("fwrite", f.name, f.pos, simp(as_int(size) * as_int(nmemb)), src)]
+        snap = None
+        if isinstance(src, Ptr) and src.obj is not None:
+            tgt = self.peek(st, src)
+            if isinstance(tgt, StructObj):
+                snap = self._detach(tgt, st)          # value of the struct at the time of the write
+        st.trace = st.trace + [("fwrite", f.name, f.pos, simp(as_int(size) * as_int(nmemb)), src, snap)]
+        self._logw(st, f.id, ("pos",))
         f.pos = simp(f.pos + as_int(size) * as_int(nmemb))
         f.size = simp(z3.If(f.pos > f.size, f.pos, f.size))
         return as_int(nmemb)
